@@ -30,6 +30,7 @@ import (
 	scalibr "github.com/google/osv-scalibr"
 	"github.com/google/osv-scalibr/extractor/filesystem"
 	"github.com/google/osv-scalibr/extractor/filesystem/list"
+	"github.com/google/osv-scalibr/extractor/filesystem/os/rpm"
 	scalibrfs "github.com/google/osv-scalibr/fs"
 	"github.com/google/osv-scalibr/plugin"
 	"github.com/google/osv-scalibr/stats"
@@ -236,6 +237,22 @@ func seRegistry(e *Env) (map[string]*exInfo, []*exInfo, error) {
 
 func freshExtractor(name string) (filesystem.Extractor, error) {
 	return list.ExtractorFromName(name)
+}
+
+// rpmTimeout is the time bound the rpm extractor is instantiated with in C02. The extractor bounds
+// the parsing of (corrupt) Berkeley DB files by Config.Timeout (default 5 minutes, by design); the
+// check does not quarrel with the default, it instantiates the bound small and requires that it
+// is honoured.
+const rpmTimeout = 1 * time.Second
+
+// boundedExtractor is freshExtractor with the extractor's own time bound configured (C02).
+func boundedExtractor(name string) (filesystem.Extractor, error) {
+	if name == rpm.Name {
+		cfg := rpm.DefaultConfig()
+		cfg.Timeout = rpmTimeout
+		return rpm.New(cfg), nil
+	}
+	return freshExtractor(name)
 }
 
 func runSECase(e *Env, c *seCase, m *emitter) (map[string]any, error) {
